@@ -534,6 +534,15 @@ class Check:
     def note(self, msg):
         self.notes.append(msg)
 
+    def attempt(self, fn, *a, **k):
+        """run one rule; an anchor / idiom it does not recognise is recorded as an analysis error and the remaining rules still run
+        (a violation found by another rule must not be lost because an unrelated construct was not recognised)"""
+        try:
+            return fn(self, *a, **k)
+        except AnalysisError as e:
+            self.error(f"{self.prop}.anchor", f"{getattr(fn, '__name__', 'rule')}: {e}")
+            return None
+
     def floor(self, rule, count, minimum, what):
         """instance floor: a for-all rule that matched fewer sites than confirmed by hand is not live."""
         if count < minimum:
